@@ -389,6 +389,80 @@ func relayOp(r *relayInst, fs []string) string {
 			return res + " conns=" + strings.Join(es, "|")
 		}
 		return res
+	case fs[0] == "pollstatus" && len(fs) == 4:
+		// pollstatus n<k> <ms> <stats token>: connection k streams small frames back to back for <ms> while GET /status is polled as fast as
+		// it answers; every answer must list every connection that is joined throughout (compared by user agent with the answer taken just
+		// before the traffic starts). Answers: polls=<K> incomplete=<J> first=<what was missing>
+		w := r.conn(fs[1])
+		ms, err := strconv.Atoi(fs[2])
+		if w == nil || err != nil || ms < 50 || ms > 10000 {
+			return "bad-op"
+		}
+		tokStats := buildToken(fs[3])
+		agents := func() (map[string]bool, bool) {
+			st, body, _ := r.request("GET", "/status", tokStats)
+			var reps []struct {
+				UserAgent string `json:"user_agent"`
+			}
+			if st != 200 || json.Unmarshal(body, &reps) != nil {
+				return nil, false
+			}
+			m := map[string]bool{}
+			for _, e := range reps {
+				m[e.UserAgent] = true
+			}
+			return m, true
+		}
+		base, ok := agents()
+		if !ok {
+			return "pollstatus unavailable"
+		}
+		stop := make(chan struct{})
+		done := make(chan int)
+		go func() {
+			n := 0
+			for {
+				select {
+				case <-stop:
+					done <- n
+					return
+				default:
+				}
+				_ = w.c.SetWriteDeadline(time.Now().Add(2 * time.Second))
+				if err := w.c.WriteMessage(websocket.BinaryMessage, []byte{0xAB, 0xCD}); err != nil {
+					<-stop
+					done <- n
+					return
+				}
+				n++
+			}
+		}()
+		polls, incomplete, first := 0, 0, "-"
+		deadline := time.Now().Add(time.Duration(ms) * time.Millisecond)
+		for time.Now().Before(deadline) {
+			cur, ok := agents()
+			polls++
+			if !ok {
+				incomplete++
+				if first == "-" {
+					first = "no-answer"
+				}
+				continue
+			}
+			for ua := range base {
+				if !cur[ua] {
+					incomplete++
+					if first == "-" {
+						first = enhex(ua)
+					}
+					break
+				}
+			}
+		}
+		close(stop)
+		sent := <-done
+		_ = w.c.SetWriteDeadline(time.Time{})
+		return fmt.Sprintf("polls=%d incomplete=%d first=%s sent=%d", polls, incomplete, first, sent)
 	case fs[0] == "raw" && len(fs) == 4:
 		p, ok := unhex(fs[2])
 		if !ok {
